@@ -122,4 +122,8 @@ MUTANTS = [
     ("c11-second-pass-direct-mode", "C11", [(SP, 1, "    let mut kmer = Kmer::new(k as u32, KmerMode::Canonical);\n    let mut current_len = segment_size; // Start ready to split", "    let mut kmer = Kmer::new(k as u32, KmerMode::Direct);\n    let mut current_len = segment_size; // Start ready to split")], "fire", "C11-P1"),
     ("c11-named-variant-strict", "C11", [(SP, 1, "                if current_len >= segment_size && candidates.contains(&kmer_value) {", "                if current_len > segment_size && candidates.contains(&kmer_value) {")], "fire", "C11-P4"),
     ("c11-unsorted-streaming", "C11", [(SP, 2, "    all_kmers.radix_sort_unstable();", "    // (sort removed)")], "fire", "C11-P2"),
+    # ---- behaviour-preserving renames: every rule must stay quiet
+    ("c12-rename-locals", "C12", [("ragc-core/src/tuple_packing.rs", "re", r"\bmarker\b", "mk"), ("ragc-core/src/tuple_packing.rs", "re", r"\bno_bytes\b", "width"), ("ragc-core/src/tuple_packing.rs", "re", r"\btrailing_bytes\b", "tail"), ("ragc-core/src/tuple_packing.rs", "re", r"\boutput_size\b", "out_len")], "quiet", ""),
+    ("c13-rename-locals", "C13", [(V, "re", r"\bno_bytes\b", "n"), (V, "re", r"\btmp\b", "rest"), (V, "re", r"\bvalue\b", "v"), (R, "re", r"\bfooter\b", "dir_buf"), (R, "re", r"\bpart_offset\b", "off0")], "quiet", ""),
+    ("c14-rename-locals", "C14", [(V, "re", r"\bno_bytes\b", "n"), (V, "re", r"\btmp\b", "rest"), (V, "re", r"\bvalue\b", "v"), (R, "re", r"\bfooter\b", "dir_buf"), (R, "re", r"\bpart_offset\b", "off0")], "quiet", ""),
 ]
